@@ -622,6 +622,13 @@ def _bv(x, w):
         if not z3.is_bv(e):
             raise Unsupported("CRC of Int back-end value")
         s = e.size()
+        if s > w and x.lo >= 0 and x.hi < (1 << w):
+            # peel zero extensions so that a value fed back (CRC continuation) keeps its original term
+            if z3.is_app_of(e, z3.Z3_OP_ZERO_EXT) and e.arg(0).size() == w:
+                return e.arg(0)
+            if z3.is_app_of(e, z3.Z3_OP_CONCAT) and e.num_args() == 2 and z3.is_bv_value(e.arg(0)) \
+                    and e.arg(0).as_long() == 0 and e.arg(1).size() == w:
+                return e.arg(1)
         return z3.Extract(w - 1, 0, e) if s >= w else z3.ZeroExt(w - s, e) if x.lo >= 0 else z3.SignExt(w - s, e)
     return z3.BitVecVal(x, w)
 
@@ -674,7 +681,8 @@ def crc_generic(data, width, poly, init, rev, xor_out):
                 top = z3.Extract(width - 1, width - 1, crc)
                 m = z3.Concat(*([top] * width))
                 crc = (crc << 1) ^ (pv & m)
-    crc = crc ^ z3.BitVecVal(xor_out, width)
+    if xor_out:
+        crc = crc ^ z3.BitVecVal(xor_out, width)
     return mkint(z3.ZeroExt(1, crc), 0, (1 << width) - 1, wt)
 
 
@@ -683,7 +691,10 @@ def mkCrcFun(poly, initCrc=~0, rev=True, xorOut=0):
     width = poly.bit_length() - 1
     mask = (1 << width) - 1
     p = poly & mask
-    init_reg = (initCrc & mask) ^ xorOut  # crcmod: crc = xorOut ^ initCrc before the loop
+    ic = initCrc
+    if not (_issym(ic) and ic.lo is not None and ic.lo >= 0 and ic.hi <= mask):
+        ic = ic & mask
+    init_reg = (ic ^ xorOut) if xorOut else ic  # crcmod: crc = xorOut ^ initCrc before the loop
 
     def fun(data, crc=None):
         reg = init_reg if crc is None else ((crc & mask) ^ xorOut)
